@@ -98,9 +98,15 @@ def select(sel, names):
 def _expand(payload, sub):
     rng = random.Random(payload['gseed'])
     sizes = [0, 1, 2, 3, 5, 12] + ([1001, 1200] if rng.random() < 0.15 else [])
-    tables = PL.gen_tables(rng, ntab=rng.choice([1, 2, 3, 3, 4, 5]), sizes=sizes, big_p=0.05)
+    types = ('string', 'integer', 'boolean', 'number', 'date') + (('time',) if rng.random() < 0.3 else ())
+    tables = PL.gen_tables(rng, ntab=rng.choice([1, 2, 3, 3, 4, 5]), sizes=sizes, big_p=0.05, types=types)
     stats = {}
-    sc = PL.gen_pipeline(rng, tables, payload['nsteps'], exclude=[k for k in ST.GENS if k not in KINDS], stats=stats)
+    pre = None
+    if len(tables) >= 2 and rng.random() < 0.35:
+        # resource names that are prefixes of one another: 'res_1' and 'res_1x'
+        i = rng.randrange(1, len(tables))
+        pre = {'tables': tables, 'steps': [{'step': 'update_resource', 'resources': i, 'props': {'name': 'res_1x', 'path': 'res_1x.csv'}}]}
+    sc = PL.gen_pipeline(rng, tables, payload['nsteps'], exclude=[k for k in ST.GENS if k not in KINDS], stats=stats, sc=pre)
     # concatenate with a real mapping now and then: rename one non-id field of the run onto a new target name
     for sp in sc['steps']:
         if sp['step'] == 'concatenate' and rng.random() < 0.4:
@@ -160,7 +166,7 @@ class C16(Prop):
     ASSUMPTIONS = ['the placement model (dfsim/props/c16.py:model) is the documented semantics: first-selected position for concatenate, right-after / end for duplicate, append for new sources',
                    'sqlite below KVFile is real and fault-free here']
     REAL_VS_STUB = {'real': ['dataflows concatenate / duplicate / delete_resource / iterable_loader / update_resource', 'kvfile + sqlite'], 'stub': ['KVFile twin only sets the cache-size knob and counts operations']}
-    PROBES = ['duplicate-spilled-to-disk', 'concatenate-with-rename', 'delete-after-duplicate', 'empty-resource', 'big-resource', 'duplicate-to-end', 'iterable-appended', 'concat-then-delete', 'concatenate-without-id-field', 'sources-appended', 'load-tuple-appended', 'schema-edit-on-one-twin-after-duplicate', 'concatenate-target-is-also-a-source-column']
+    PROBES = ['duplicate-spilled-to-disk', 'concatenate-with-rename', 'delete-after-duplicate', 'empty-resource', 'big-resource', 'duplicate-to-end', 'iterable-appended', 'concat-then-delete', 'concatenate-without-id-field', 'sources-appended', 'load-tuple-appended', 'schema-edit-on-one-twin-after-duplicate', 'concatenate-target-is-also-a-source-column', 'prefix-related-resource-names', 'time-cells-in-iterable']
     TIERS = {'quick': dict(runs=800, wall=100, run_wall=300),
              'thorough': dict(runs=25000, wall=1700, run_wall=600)}
     SHRINK_FROZEN = ('fields_', 'gen_stats')
@@ -193,6 +199,10 @@ class C16(Prop):
         desc = 'sizes=%r steps=%s' % ([len(t['rows']) for t in sc['tables']], json.dumps(steps)[:700])
         if any(len(t['rows']) == 0 for t in sc['tables']):
             ctx.probe('empty-resource')
+        if any(sp['step'] == 'update_resource' and (sp.get('props') or {}).get('name') == 'res_1x' for sp in steps):
+            ctx.probe('prefix-related-resource-names')
+        if any(f['type'] == 'time' for t in sc['tables'] for f in t['fields']):
+            ctx.probe('time-cells-in-iterable')
         if any(len(t['rows']) > 1000 for t in sc['tables']):
             ctx.probe('big-resource')
         for sp in steps:
